@@ -166,7 +166,11 @@ def _main(prop, tier, seed, args, scratch, t0):
                     items.append({"check": it["check"], "descriptor": it["descriptor"], "source": fn})
         if items and not args.only:
             specs.append({"replay": items, "threads": 2, "budget_s": 600})
-        for s in mod.shards(tier):
+        try:
+            shard_list = mod.shards(tier, seed)
+        except TypeError:
+            shard_list = mod.shards(tier)
+        for s in shard_list:
             if args.only and not fnmatch.fnmatch(s["check"], args.only):
                 continue
             specs.append(s)
